@@ -100,6 +100,11 @@ func c08Op(w *world.LW, op string, ctx context.Context) string {
 	case "truncate":
 		err := b.VerifTruncate(ctx)
 		return "truncate=" + world.ErrClass(err)
+	case "stream-abandon":
+		// a consumer that takes one vertex and then walks away (peer disconnected): the node must stay usable
+		ch := b.StreamDAG(ctx)
+		v, _ := vsched.Recv2(ch)
+		return fmt.Sprintf("stream-abandon=%v", v != nil)
 	case "stream":
 		ch := b.StreamDAG(ctx)
 		n := 0
@@ -202,7 +207,9 @@ func c08Oracle(name string) func(x *sched.X, r *vsched.Result) []common.Violatio
 		}
 		if r.RootDone {
 			for _, b := range r.Blocked {
-				if b.Class == vsched.Child {
+				// property: no goroutine parked in the graph walker, no lock held by an abandoned task.
+				// (A stream producer parked on its output channel without any lock is a plain goroutine leak and is counted, not flagged.)
+				if b.Class == vsched.Child && (strings.Contains(b.Where, "walkAncestors") || len(b.Holds) > 0) {
 					out = append(out, common.Violation{Predicate: "C08.leak", Key: fmt.Sprintf("C08.leak/%s/%s/%s", name, exit, frameFn(b.Where)),
 						What: fmt.Sprintf("%s: goroutine left parked after the operation returned (%s): %s %s in %s", name, exit, b.Op, b.Obj, b.Where)})
 					break
@@ -282,6 +289,8 @@ func c08Scenarios() map[string]*sched.Scenario {
 	add("S3/stream+create/chain4", []int{-1}, c08Multi("chain4", []string{"stream", "create"}))
 	add("S4/truncate+create+balance/chain4", []int{-1}, c08Multi("chain4", []string{"truncate", "create", "balance"}))
 	add("S5/sync+create/chain4", []int{-1}, c08Multi("chain4", []string{"sync", "create"}, "G", "N1"))
+	add("S6/stream-abandoned/chain6", []int{-1}, c08Single("stream-abandon", "chain6"))
+	add("S6/stream-abandoned+create/chain6", []int{-1}, c08Multi("chain6", []string{"stream-abandon", "create"}))
 	return m
 }
 
@@ -356,5 +365,5 @@ func c08Evidence(rep *common.Report, tot *sched.Totals, pre, sd int) {
 	rep.Set("states_note", "states = distinct end states (observations + blocked-task summary) over all executions; every execution is a run of the instrumented implementation")
 	rep.Assume("the shim's model of sync.RWMutex/channels/select is faithful (litmus tests in engine/vsched)")
 	rep.Assume("badger and bigcache calls are atomic terminating library steps")
-	rep.Assume(fmt.Sprintf("truncateDiff scaled to %d in the explored build", accountant.VerifTruncateDiff()))
+	rep.Assume(fmt.Sprintf("truncateDiff scaled to %d and the DAG-stream channel capacity scaled to 2 (shipped: 100) in the explored build, so that a stalled stream consumer is reachable with a 7-vertex ledger", accountant.VerifTruncateDiff()))
 }
